@@ -1,0 +1,11 @@
+//go:build verif
+
+package container
+
+// Contracts for the deductive verifier in /verif (gocv). Comment-only file,
+// compiled only under the `verif` build tag.
+
+//@ func SliceCopy(v []V) []V
+//@   props C15 C16
+//@   ensures fresh(r0) && len(r0) == len(v) && off(r0) == 0
+//@   ensures forall(i, 0, len(v), r0[i] == v[i])
